@@ -91,6 +91,10 @@ class Suite:
     def known_key(self, case) -> str:
         return self.model_line(case)
 
+    def normalize_model(self, case, out: str) -> str:
+        """canonicalise the driver's answer before it is compared with `impl` (e.g. sort a field list)"""
+        return out
+
     def teardown(self):
         pass
 
@@ -265,6 +269,7 @@ def check(suite: Suite, tier: str, seed: int, replay: str | None = None, budget_
     if ok_b:
         try:
             model_out = run_model(lines)
+            model_out = [suite.normalize_model(c, o) for c, o in zip(cases, model_out)]
         except Exception as exc:
             report["broken_obligations"].append({"what": "model driver failed", "log": str(exc)[-2000:]})
     known = load_known(pid)
@@ -275,7 +280,9 @@ def check(suite: Suite, tier: str, seed: int, replay: str | None = None, budget_
         b = suite.classify(c, impl_out[i])
         hist[b] = hist.get(b, 0) + 1
         k = suite.nontrivial(c, impl_out[i])
-        if k is not None:
+        if isinstance(k, (list, tuple, set)):
+            nontrivial.update(k)
+        elif k is not None:
             nontrivial.add(k)
         if model_out is not None and model_out[i] != impl_out[i]:
             report["disagreements"].append({"case": c, "line": lines[i], "impl": impl_out[i], "model": model_out[i]})
